@@ -551,6 +551,16 @@ impl<Front: SocketHandler, L: ListenerHandler> Pipe<Front, L> {
     }
 
     pub fn backend_hup(&mut self, metrics: &mut SessionMetrics) -> SessionResult {
+        // Mirror of `frontend_hup`: a backend that only shut down its write side
+        // (reported as HUP, no ERROR) still reads. Bytes already taken from the
+        // client are written out before the session goes away; `backend_writable`
+        // closes it once they are out (or the write fails on a backend that is
+        // really gone).
+        if self.frontend_buffer.available_data() > 0 && !self.backend_readiness.event.is_error() {
+            self.backend_readiness.interest.insert(Ready::WRITABLE);
+            self.backend_readiness.event.remove(Ready::HUP);
+            return SessionResult::Continue;
+        }
         self.backend_status = ConnectionStatus::Closed;
         // The backend hung up: its status is now terminal regardless of which
         // keep-alive branch we take below.
